@@ -7,6 +7,7 @@ import (
 	"encoding/json"
 	"fmt"
 	"os"
+	"regexp"
 	"strings"
 	"time"
 
@@ -109,6 +110,17 @@ func describe(op hist.Op) string {
 		return fmt.Sprintf("v%d = New(%q)", op.Dst, op.Name)
 	}
 	return fmt.Sprintf("v%d.%s()", op.H, op.Kind)
+}
+
+var bareAmpCall = regexp.MustCompile(`&\{\{template`)
+
+func bareAmpBeforeCall(h *hist.History) bool {
+	for _, op := range h.Ops {
+		if bareAmpCall.MatchString(op.Text) {
+			return true
+		}
+	}
+	return false
 }
 
 // judge runs one history and applies the clauses of the monitor.
@@ -234,7 +246,11 @@ func judge(c *core.Ctx, cf cfg, h *hist.History, verbose bool) {
 					c.Count("reference_panics", 1)
 				} else {
 					c.Count("compared_with_reference", 1)
-					if cf.equality && (ref.Out != res.Out || ref.IsErr != res.IsErr) {
+					if cf.equality && (ref.Out != res.Out || ref.IsErr != res.IsErr) && !c.Strict && bareAmpBeforeCall(h) {
+						// known finding K49 (C06) / K05r (C14): a bare "&" directly before a template
+						// call inside an attribute value is not part of the name of the callee's copy
+						c.Count("excluded_K49_bare_ampersand_before_call", 1)
+					} else if cf.equality && (ref.Out != res.Out || ref.IsErr != res.IsErr) {
 						c.Violation(k, "step %d %s gives (%q, err=%q); the same call on a fresh set with the same definitions gives (%q, err=%q)", i, describe(op), res.Out, res.Err, ref.Out, ref.Err)
 						return
 					}
